@@ -173,7 +173,7 @@ def _glob_regex(pattern_line: str):
         return None
 
 
-def cone(graphs: list[str | None], edited: set[str]) -> set[str]:
+def cone(graphs: list[str | None], edited: set[str], executed: set[str] | None = None) -> set[str]:
     """Least set of step keys closed under the three clauses of C04, computed on the union of
     the given graphs (before and after the rebuild; attached and detached nodes alike, since a
     step that the rebuild dropped was active when it started):
@@ -181,6 +181,10 @@ def cone(graphs: list[str | None], edited: set[str]) -> set[str]:
     * the step consumes an edited file or one of its glob patterns matches an edited path;
     * the step consumes an output of a step in the set;
     * the step was declared by (is a product of) a step in the set.
+
+    With `executed` the set is built inside the executed steps only, which is what the property
+    says: an executed step must be justified by an edited file or by another *executed* step (a
+    step declared by a plan that was merely re-checked and skipped is not justified by it).
     """
     steps: dict[str, dict] = {}
     creator_of_file: dict[str, set[str]] = {}
@@ -199,6 +203,8 @@ def cone(graphs: list[str | None], edited: set[str]) -> set[str]:
                     ref = strip_ref(ref)
                     if ref.startswith("step:"):
                         creator_of_file.setdefault(key, set()).add(ref)
+    if executed is not None:
+        steps = {k: v for k, v in steps.items() if k in executed}
     result: set[str] = set()
     for key, info in steps.items():
         if any(f"file:{p}" in info["inputs"] for p in edited):
@@ -662,9 +668,10 @@ class PlanTree:
                                       env_overrides=step.get("ovr")))
         if plan == "root" and getattr(self, "glob_files", None):
             # a named glob with a constrained wildcard: g/inp10.txt is on disk but does not match
+            actions.append(A.static(*sorted(p for p in self.glob_files if p != "g/inp10.txt")))
             actions.append(A.foreach("g/inp${*idx}.txt",
                                      [A.step("cnt ${idx}", inp=["${path}"], out=["out/cnt_${idx}.txt"])],
-                                     static=True, idx="[0-9]"))
+                                     static=False, idx="[0-9]"))
         for child in children:
             actions.append(A.step(self.label(child), inp=[self.file(child)], plan=True))
         return actions
